@@ -52,6 +52,10 @@ def gen_script(rnd, tier):
         nc += 1
         L.append("bclass %d :" % nc)
         L.append("only %d : %s" % (nc, " ".join(map(str, rnd.sample(range(1, n + 1), rnd.randint(0, min(2, n)))))))
+    # some class specifications are watched by a dependent that pickles them from inside every change notification
+    for c in range(1, nreal + 1):
+        if rnd.random() < 0.4:
+            L.append("watch %d :" % c)
     # class declarations first (every shape, several per class, *only* forms repeated) ...
     for _ in range(rnd.randint(0, 6)):
         c = rnd.randint(1, nc)
@@ -126,6 +130,11 @@ def judge(chk, lines, outs):
     bad, known = [], []
     for i, (l, o) in enumerate(zip(lines, outs)):
         f = l.split()
+        if "WATCH-FAIL" in o:
+            bad.append((i, "%s: a dependent pickled the class specification from inside the change notification: %s" % (l, o.split("WATCH-FAIL")[1].strip())))
+            continue
+        if f[0] == "watch":
+            chk.count("specifications_pickled_inside_notifications")
         if o.startswith("err") or o == "bad" or o.startswith("other") or "?" in o.split("FAIL")[0]:
             bad.append((i, "%s -> %s" % (l, o)))
             continue
